@@ -68,6 +68,9 @@ func (tds *Conn) VerifConnErr() error {
 	}
 }
 
+// VerifConnErrLen returns the number of queued connection errors.
+func (tds *Conn) VerifConnErrLen() int { return len(tds.errCh) }
+
 // VerifID returns the channel id.
 func (tdsChan *Channel) VerifID() int { return tdsChan.channelId }
 
